@@ -165,18 +165,18 @@ func (s *MemoryStore) Enqueue(env Envelope) error {
 	now := s.nowFn()
 	s.maybePruneLocked(now)
 
+	// Select drop_oldest victims first; evict them only once the new
+	// envelope is certain to be stored.
+	var victims []string
 	if s.maxDepth > 0 {
-		activeCount := s.activeCountLocked()
-		activeDeliveredCount := s.activeDeliveredCountLocked()
-		for activeCount >= s.maxDepth || (s.deliveredRetentionMaxAge > 0 && activeDeliveredCount >= s.maxDepth) {
+		if need := s.evictionsNeededLocked(1); need > 0 {
 			if s.dropPolicy != "drop_oldest" {
 				return ErrQueueFull
 			}
-			if !s.dropOldestQueuedLocked() {
+			victims = s.oldestQueuedIDsLocked(need)
+			if len(victims) < need {
 				return ErrQueueFull
 			}
-			activeCount = s.activeCountLocked()
-			activeDeliveredCount = s.activeDeliveredCountLocked()
 		}
 	}
 
@@ -188,8 +188,11 @@ func (s *MemoryStore) Enqueue(env Envelope) error {
 	if env.ID == "" {
 		env.ID = newHexID("evt_")
 	}
-	if _, exists := s.items[env.ID]; exists {
+	if _, exists := s.items[env.ID]; exists && !containsString(victims, env.ID) {
 		return ErrEnvelopeExists
+	}
+	for _, id := range victims {
+		s.evictLocked(id, memoryEvictionReasonDropOldest)
 	}
 	if env.State == "" {
 		env.State = StateQueued
@@ -291,20 +294,25 @@ func (s *MemoryStore) EnqueueBatch(items []Envelope) (int, error) {
 		prepared = append(prepared, &cpy)
 	}
 
-	// Handle depth overflow with drop_oldest.
+	// Handle depth overflow with drop_oldest: select the victims first and
+	// evict them only once the whole batch is certain to be stored.
+	var victims []string
 	if s.maxDepth > 0 {
-		for activeCount+len(prepared) > s.maxDepth || (s.deliveredRetentionMaxAge > 0 && activeDeliveredCount+len(prepared) > s.maxDepth) {
-			if !s.dropOldestQueuedLocked() {
+		if need := s.evictionsNeededLocked(len(prepared)); need > 0 {
+			victims = s.oldestQueuedIDsLocked(need)
+			if len(victims) < need {
 				return 0, ErrQueueFull
 			}
-			activeCount = s.activeCountLocked()
-			activeDeliveredCount = s.activeDeliveredCountLocked()
 		}
 	}
 
 	if pressure := s.memoryPressureStatusLocked(); pressure.Active {
 		s.memoryPressureRejects++
 		return 0, ErrMemoryPressure
+	}
+
+	for _, id := range victims {
+		s.evictLocked(id, memoryEvictionReasonDropOldest)
 	}
 
 	// Commit all items.
@@ -459,16 +467,47 @@ func envelopeRetainedBytes(env *Envelope) int64 {
 	return size
 }
 
-func (s *MemoryStore) dropOldestQueuedLocked() bool {
+// evictionsNeededLocked returns how many queued items must be dropped so that
+// n more items fit under max_depth.
+func (s *MemoryStore) evictionsNeededLocked(n int) int {
+	need := s.activeCountLocked() + n - s.maxDepth
+	if s.deliveredRetentionMaxAge > 0 {
+		if d := s.activeDeliveredCountLocked() + n - s.maxDepth; d > need {
+			need = d
+		}
+	}
+	if need < 0 {
+		return 0
+	}
+	return need
+}
+
+// oldestQueuedIDsLocked returns up to n ids of the oldest queued items.
+func (s *MemoryStore) oldestQueuedIDsLocked(n int) []string {
+	ids := make([]string, 0, n)
+	seen := make(map[string]struct{}, n)
 	for _, id := range s.order {
+		if len(ids) >= n {
+			break
+		}
 		env := s.items[id]
-		if env == nil {
+		if env == nil || env.State != StateQueued {
 			continue
 		}
-		if env.State != StateQueued {
+		if _, dup := seen[id]; dup {
 			continue
 		}
-		return s.evictLocked(id, memoryEvictionReasonDropOldest)
+		seen[id] = struct{}{}
+		ids = append(ids, id)
+	}
+	return ids
+}
+
+func containsString(list []string, v string) bool {
+	for _, x := range list {
+		if x == v {
+			return true
+		}
 	}
 	return false
 }
